@@ -3,14 +3,14 @@
 
    Level reached: every executable reference specification used by the correspondence check
    (model/Algos.v) is proved equal to its declarative definition for ALL graphs; the
-   validation predicate for returned paths is proved to accept exactly real paths; Prim's
-   original incoming-edge lookup is refuted on a witness; the bfs model is proved sound (returns
-   real paths, never shorter than the optimum).  The classical optimality theorems
-   about the algorithm models (C26_bfs_optimal_full, C26_dijkstra_optimal_full,
-   C26_prim_minimal_full) are stated below and are NOT proved: the models are tied to the
-   specifications by the correspondence check only (see checks/C26.json "partial"). *)
+   validation predicate for returned paths accepts exactly real paths; the models of bfs and
+   dijkstra as written are proved to return a real path of optimal cost / None exactly when
+   unreachable (C26_bfs_optimal, C26_dijkstra_optimal), the model of count_triangles equals
+   the specification, and Prim's original incoming-edge lookup is refuted on a witness.
+   NOT proved: that the repaired prim_mst model returns the minimum spanning-tree weight
+   (C26_prim_minimal_full, stated below); see checks/C26.json "partial". *)
 From Coq Require Import List NArith Bool Arith.
-From Verif Require Import Algos AlgosProofs.
+From Verif Require Import Algos AlgosProofs AlgosOptimal AlgosDijkstra AlgosTriangles.
 Import ListNotations.
 
 (* ---- shortest paths / reachability ------------------------------------------------ *)
@@ -133,38 +133,37 @@ Proof. exact lcc_u_def. Qed.
 Theorem C26_lcc_directed_arc : forall g u v, darc g u v = true <-> u <> v /\ arc g u v.
 Proof. exact darc_spec. Qed.
 
-(* ---- the bfs model as written (partial) -------------------------------------------- *)
+(* ---- the algorithms as written ------------------------------------------------------ *)
 
-(* whatever the model of pathfinding.rs bfs returns is a real path of the graph from s to t,
-   its cost is its number of edges, and that is at least the specification's hop distance
-   (which exists).  Missing for C26_bfs_optimal_full: the converse inequality (FIFO order
-   invariant), "None only when unreachable", and that the model's fuel always suffices. *)
-Theorem C26_bfs_sound_partial : forall g s t p c, wf g ->
-  bfs_model g s t = RPath p c ->
-  path_cost (unitw g) p c /\ hd_error p = Some s /\ last p s = t /\
-  c = N.of_nat (length p - 1) /\
-  exists c0, hop_dist g s t = Some c0 /\ (c0 <= c)%N.
-Proof. exact bfs_model_sound. Qed.
+(* [pres_optimal g s t spec r] : the result r is "a real path of optimal cost, or none when
+   unreachable":  RNone only when spec = None;  RPath p c only when spec = Some c and p is a
+   path of the graph from s to t whose edge weights sum to c;  never the model's out-of-fuel
+   outcome. *)
 
-(* the cost reported by the model of pathfinding.rs dijkstra is the cost of a real walk from
-   s to t, hence at least the specification's optimum (which exists).  Missing for
-   C26_dijkstra_optimal_full: the converse inequality (settled-set invariant), that the
-   returned vertex list realises exactly that cost, "None only when unreachable", fuel. *)
-Theorem C26_dijkstra_sound_partial : forall g s t p c, wf g ->
-  dijkstra_model g s t = RPath p c ->
-  walk g s t c /\ exists c0, sp_cost g s t = Some c0 /\ (c0 <= c)%N.
-Proof. exact dijkstra_model_cost_sound. Qed.
+(* the model of pathfinding.rs bfs (FIFO queue, visited map with parents) returns a real path
+   with the minimum number of hops, None exactly when t is unreachable, and its fuel always
+   suffices; every well-formed graph, every s, t *)
+Theorem C26_bfs_optimal : forall g s t, wf g -> s < gn g -> t < gn g ->
+  pres_optimal (unitw g) s t (hop_dist g s t) (bfs_model g s t).
+Proof. exact bfs_optimal. Qed.
+
+(* the model of pathfinding.rs dijkstra (priority queue popping a minimal entry, stale-entry
+   skip, strict-improvement relaxation, parent map) returns a real path whose cost is the
+   minimum over all walks, None exactly when t is unreachable, and never runs out of fuel;
+   weights are naturals (non-negative) *)
+Theorem C26_dijkstra_optimal : forall g s t, wf g -> s < gn g -> t < gn g ->
+  pres_optimal g s t (sp_cost g s t) (dijkstra_model g s t).
+Proof. exact dijkstra_optimal. Qed.
+
+(* the model of topology.rs count_triangles as written equals the specification *)
+Theorem C26_count_triangles_model : forall g, count_triangles_model g = triangles_spec g.
+Proof. exact count_triangles_model_spec. Qed.
 
 (* ---- stated, not proved (see "partial") -------------------------------------------- *)
 
-Definition C26_bfs_optimal_full : Prop := forall g s t, wf g -> s < gn g -> t < gn g ->
-  pres_optimal (unitw g) s t (hop_dist g s t) (bfs_model g s t).
-Definition C26_dijkstra_optimal_full : Prop := forall g s t, wf g -> s < gn g -> t < gn g ->
-  pres_optimal g s t (sp_cost g s t) (dijkstra_model g s t).
 Definition C26_prim_minimal_full : Prop := forall g, wf g -> 0 < gn g ->
   exists c T, prim_model g = MRes c T /\ mst_spec g = Some c.
-Definition C26_full : Prop :=
-  C26_bfs_optimal_full /\ C26_dijkstra_optimal_full /\ C26_prim_minimal_full.
+Definition C26_full : Prop := C26_prim_minimal_full.
 
 (* ---- non-vacuity ------------------------------------------------------------------- *)
 
@@ -201,5 +200,6 @@ Print Assumptions C26_spec_mst.
 Print Assumptions C26_prim_original_defect.
 Print Assumptions C26_triangle_def.
 Print Assumptions C26_lcc_def.
-Print Assumptions C26_bfs_sound_partial.
-Print Assumptions C26_dijkstra_sound_partial.
+Print Assumptions C26_bfs_optimal.
+Print Assumptions C26_dijkstra_optimal.
+Print Assumptions C26_count_triangles_model.
